@@ -903,11 +903,16 @@ type SyncStormPlan struct {
 	Parties int    `json:"parties"`
 	Rounds  int    `json:"rounds"`
 	Sets    int    `json:"sets,omitempty"`
+	Setters int    `json:"setters,omitempty"` // watchable: goroutines calling Set concurrently (0 = 1)
 }
 
 func genSyncStorm(t *rapid.T) SyncStormPlan {
-	p := SyncStormPlan{Mode: rapid.SampledFrom([]string{"loadorstore", "watchable"}).Draw(t, "mode")}
-	if p.Mode == "loadorstore" {
+	p := SyncStormPlan{Mode: rapid.SampledFrom([]string{"loadorstore", "loadanddelete", "watchable", "watchable"}).Draw(t, "mode")}
+	p.Setters = 1
+	if p.Mode == "watchable" {
+		p.Setters = rapid.SampledFrom([]int{1, 2, 3}).Draw(t, "setters")
+	}
+	if p.Mode == "loadorstore" || p.Mode == "loadanddelete" {
 		p.Parties, p.Rounds = rapid.IntRange(3, 6).Draw(t, "parties"), rapid.IntRange(500, 2000).Draw(t, "rounds")
 	} else {
 		p.Parties, p.Rounds, p.Sets = rapid.IntRange(1, 3).Draw(t, "observers"), rapid.IntRange(2, 6).Draw(t, "rounds"), rapid.IntRange(300, 2000).Draw(t, "sets")
@@ -965,6 +970,71 @@ func runLoadOrStoreStorm(p SyncStormPlan) (vk.Outcome, error) {
 	return out, nil
 }
 
+// runLoadAndDeleteStorm: several goroutines LoadAndDelete one present key at once while another stores a new
+// value under it. Every value that was ever stored is accounted for exactly once (returned with loaded=true, or
+// still in the map at the end), and loaded=false comes with the zero value.
+func runLoadAndDeleteStorm(p SyncStormPlan) (vk.Outcome, error) {
+	var out vk.Outcome
+	type res struct {
+		v      int
+		loaded bool
+	}
+	for round := 0; round < p.Rounds; round++ {
+		var m xsync.Map[int, int]
+		m.Store(7, 1000)
+		gate := make(chan struct{})
+		rs := make([]res, p.Parties)
+		var wg sync.WaitGroup
+		for g := 0; g < p.Parties; g++ {
+			wg.Add(1)
+			go func(g int) {
+				defer wg.Done()
+				<-gate
+				if g == 0 && round%2 == 1 {
+					m.Store(7, 2000) // a new value under the same key, racing the claims
+					rs[g] = res{0, false}
+					return
+				}
+				v, l := m.LoadAndDelete(7)
+				rs[g] = res{v, l}
+			}(g)
+		}
+		close(gate)
+		wg.Wait()
+		stored := map[int]int{1000: 1}
+		if round%2 == 1 {
+			stored[2000] = 1
+		}
+		for g, r := range rs {
+			if !r.loaded {
+				if r.v != 0 {
+					return out, vk.Violf("map-value", "round %d: goroutine %d: LoadAndDelete returned (%d, false): absent is reported with the zero value; results %v", round, g, r.v, rs)
+				}
+				continue
+			}
+			if stored[r.v] == 0 {
+				return out, vk.Violf("map-value", "round %d: goroutine %d: LoadAndDelete returned (%d, true), a value that was never stored or was already handed to another caller; results %v", round, g, r.v, rs)
+			}
+			stored[r.v]--
+		}
+		if v, ok := m.Load(7); ok {
+			if stored[v] == 0 {
+				return out, vk.Violf("map-value", "round %d: the map still holds %d, which was already handed out; results %v", round, v, rs)
+			}
+			stored[v]--
+		}
+		for v, n := range stored {
+			// (the racing Store may overwrite 1000 before anybody claims it; nothing ever overwrites the last value stored)
+			if n != 0 && (round%2 == 0 || v == 2000) {
+				return out, vk.Violf("map-value", "round %d: the value %d vanished: removed from the map but returned to nobody; results %v", round, v, rs)
+			}
+		}
+	}
+	out.NonTrivial, out.Execs = true, p.Rounds
+	out.Label("storm:loadanddelete")
+	return out, nil
+}
+
 // runWatchableStorm: one setter issues Sets back to back while observers run the documented loop
 // (Value; wait for the channel; Value; ...). Values never go backwards for an observer, a channel is
 // always paired with the same value, and once the setter is done every observer arrives at the final
@@ -992,14 +1062,15 @@ func runWatchableStorm(p SyncStormPlan) (vk.Outcome, error) {
 				wg.Add(1)
 				go func(o int) {
 					defer wg.Done()
-					last := 0
+					last := map[int]int{} // per setter: its values are increasing
 					for {
 						v, ch := w.Value()
-						if v < last {
-							fail(vk.Violf("watchable-order", "round %d: observer %d saw %d after %d (one setter, increasing values)", round, o, v, last))
+						if st, i := v/1000000, v%1000000; i < last[st] {
+							fail(vk.Violf("watchable-order", "round %d: observer %d saw setter %d's value %d after its value %d", round, o, st, i, last[st]))
 							return
+						} else {
+							last[st] = i
 						}
-						last = v
 						lastSeen[o].Store(int64(v))
 						mu.Lock()
 						if pv, ok := paired[ch]; ok && pv != v {
@@ -1009,25 +1080,37 @@ func runWatchableStorm(p SyncStormPlan) (vk.Outcome, error) {
 						}
 						paired[ch] = v
 						mu.Unlock()
-						if v == p.Sets {
-							done[o].Store(true)
-							return
-						}
 						select {
 						case <-ch:
 						case <-quit:
+							done[o].Store(true)
 							return
 						}
 					}
 				}(o)
 			}
-			for i := 1; i <= p.Sets; i++ {
-				w.Set(i)
+			setters := p.Setters
+			if setters < 1 {
+				setters = 1
 			}
+			var sw sync.WaitGroup
+			for st := 0; st < setters; st++ {
+				sw.Add(1)
+				go func(st int) {
+					defer sw.Done()
+					for i := 1; i <= p.Sets; i++ {
+						w.Set(st*1000000 + i)
+					}
+				}(st)
+			}
+			sw.Wait()
 			synctest.Wait()
-			for o := range done {
-				if !done[o].Load() && verr == nil {
-					verr = vk.Violf("watchable-stuck", "round %d: after %d back-to-back Sets observer %d is blocked on the channel it got together with the value %d: no later Set will ever close it", round, p.Sets, o, lastSeen[o].Load())
+			// everything is at rest: whatever value Value reports now is the final one, and every observer sits on
+			// the channel that came with it (an observer parked on an older value's channel would never wake up)
+			final, _ := w.Value()
+			for o := range lastSeen {
+				if got := int(lastSeen[o].Load()); got != final && verr == nil {
+					verr = vk.Violf("watchable-stuck", "round %d: after %d setter(s) x %d back-to-back Sets the value is %d, but observer %d is parked on the channel it got together with %d: no later Set will ever close it", round, setters, p.Sets, final, o, got)
 				}
 			}
 			close(quit)
@@ -1048,6 +1131,9 @@ func TestSyncStorm(t *testing.T) {
 	vk.Run(t, suite, "sync-storm", 40, genSyncStorm, func(p SyncStormPlan) (vk.Outcome, error) {
 		if p.Mode == "loadorstore" {
 			return runLoadOrStoreStorm(p)
+		}
+		if p.Mode == "loadanddelete" {
+			return runLoadAndDeleteStorm(p)
 		}
 		return runWatchableStorm(p)
 	})
